@@ -58,3 +58,240 @@ def definite_failures(chk, f):
             if ic is not None and lc is not None and isinstance(ic.get("val"), int) and isinstance(lc.get("val"), int) and ic["val"] >= lc["val"]:
                 msgs.append("%s: constant index %d out of bounds for constant length %d" % (f.loc(b), ic["val"], lc["val"]))
     return msgs
+
+
+# ------------------------------------------------------------------------------------
+# site enumeration (DESIGN 3.6)
+# ------------------------------------------------------------------------------------
+PSET_EXACT = {
+    "core::option::Option::<T>::unwrap", "core::option::Option::<T>::expect",
+    "core::result::Result::<T, E>::unwrap", "core::result::Result::<T, E>::expect",
+    "core::result::Result::<T, E>::unwrap_err", "core::result::Result::<T, E>::expect_err",
+    "core::ops::index::Index::index", "core::ops::index::IndexMut::index_mut",
+    "core::slice::<impl [T]>::split_at", "core::slice::<impl [T]>::split_at_mut", "core::slice::<impl [T]>::copy_from_slice",
+    "core::slice::<impl [T]>::clone_from_slice", "core::slice::<impl [T]>::swap", "core::slice::<impl [T]>::windows",
+    "core::slice::<impl [T]>::chunks", "core::slice::<impl [T]>::chunks_exact", "core::slice::<impl [T]>::rotate_left", "core::slice::<impl [T]>::rotate_right",
+    "core::str::<impl str>::split_at",
+    "alloc::vec::Vec::<T, A>::remove", "alloc::vec::Vec::<T, A>::insert", "alloc::vec::Vec::<T, A>::swap_remove", "alloc::vec::Vec::<T, A>::split_off",
+    "alloc::vec::Vec::<T, A>::drain", "alloc::vec::Vec::<T, A>::truncate_front",
+    "alloc::string::String::remove", "alloc::string::String::insert", "alloc::string::String::insert_str", "alloc::string::String::truncate", "alloc::string::String::split_off",
+    "core::iter::traits::iterator::Iterator::sum", "core::iter::traits::iterator::Iterator::product", "core::iter::traits::iterator::Iterator::step_by",
+    "core::ops::arith::Add::add", "core::ops::arith::Sub::sub", "core::ops::arith::Mul::mul", "core::ops::arith::Div::div", "core::ops::arith::Rem::rem",
+    "core::ops::arith::AddAssign::add_assign", "core::ops::arith::SubAssign::sub_assign", "core::ops::arith::MulAssign::mul_assign",
+    "core::ops::arith::DivAssign::div_assign", "core::ops::arith::RemAssign::rem_assign", "core::ops::arith::Neg::neg",
+    "core::cell::RefCell::<T>::borrow", "core::cell::RefCell::<T>::borrow_mut",
+    "core::char::methods::<impl char>::to_digit", "core::char::methods::<impl char>::from_digit",
+    "core::num::nonzero::NonZero::<T>::new_unchecked",
+    "core::iter::traits::iterator::Iterator::max_by", "alloc::slice::<impl [T]>::concat",
+    "core::time::Duration::new", "std::time::Instant::duration_since",
+}
+PSET_RE = re.compile(r"^core::num::<impl [iu](8|16|32|64|128|size)>::(pow|abs|div_euclid|rem_euclid|next_power_of_two|isqrt|ilog|ilog2|ilog10)$")
+PANIC_FNS = ("core::panicking::", "std::rt::begin_panic", "core::option::unwrap_failed", "core::option::expect_failed", "core::result::unwrap_failed", "std::process::abort")
+INT_TYS = ("usize", "u8", "u16", "u32", "u64", "u128", "isize", "i8", "i16", "i32", "i64", "i128")
+FLOAT_TYS = ("f32", "f64")
+
+
+def strip_ref(t):
+    t = t.strip()
+    while t.startswith("&"):
+        t = t[1:].lstrip()
+        if t.startswith("mut "):
+            t = t[4:]
+        if t.startswith("'"):
+            t = t.split(" ", 1)[1] if " " in t else t
+    return t
+
+
+def is_clap_generated(f):
+    io = f.impl_of
+    root = f
+    return bool(io and io.get("trait") and str(io["trait"]).startswith("clap_builder::") and f.derived)
+
+
+class Site:
+    __slots__ = ("fn", "bb", "kind", "sig", "detail", "term")
+
+    def __init__(self, fn, bb, kind, sig, detail, term):
+        self.fn, self.bb, self.kind, self.sig, self.detail, self.term = fn, bb, kind, sig, detail, term
+
+    def loc(self):
+        return self.fn.loc(self.bb)
+
+
+def opdesc(f, op):
+    c = an.const_of(f, op)
+    if c is not None and not isinstance(c.get("val"), (dict, list)) and c.get("val") is not None:
+        return "const %s" % json.dumps(c["val"])
+    p = op_place(op)
+    if p is not None:
+        return f.local_ty(p[0]) if not p[1] else "place"
+    return "?"
+
+
+def enumerate_sites(prog, f):
+    """all panic-capable sites of one function body"""
+    out = []
+    for b, t in f.asserts():
+        m = t["msg"]
+        k = m["kind"]
+        if k == "Overflow":
+            lc = an.const_of(f, m["l"])
+            rc = an.const_of(f, m["r"])
+            ld = "c%s" % json.dumps(lc["val"]) if lc is not None and isinstance(lc.get("val"), int) else "v"
+            rd = "c%s" % json.dumps(rc["val"]) if rc is not None and isinstance(rc.get("val"), int) else "v"
+            sig = "Overflow(%s %s,%s)" % (m["op"], ld, rd)
+        elif k == "BoundsCheck":
+            ic = an.const_of(f, m["index"])
+            sig = "BoundsCheck(idx=%s)" % ("c%d" % ic["val"] if ic is not None and isinstance(ic.get("val"), int) else "v")
+        else:
+            sig = k
+        out.append(Site(f, b, "assert", sig, m, t))
+    for b, t in f.calls():
+        c = t["callee"]
+        p = c.get("path")
+        if p is None:
+            continue
+        if p.startswith(PANIC_FNS):
+            # message
+            msg = ""
+            for a in t["args"]:
+                s = an.const_str_of(f, a)
+                if s:
+                    msg = s
+            if not msg:
+                # panic_fmt(Arguments): look for the literal in the same function feeding it
+                l = op_local(t["args"][0]) if t["args"] else None
+                d = f.single_def(l) if l is not None else None
+                if d and d[0] == "call":
+                    for a in d[2]["args"]:
+                        s = an.const_str_of(f, a)
+                        if s:
+                            msg = s
+            out.append(Site(f, b, "panic", "panic:%s(%s)" % (p.split("::")[-1], msg[:60]), msg, t))
+            continue
+        if p in PSET_EXACT or PSET_RE.match(p):
+            st = strip_ref(c.get("self_ty") or (c.get("args") or [""])[0])
+            args = c.get("args") or []
+            nm = p.split("::")[-1]
+            # operator traits and sum/product: only integer instances can panic (overflow / division by zero)
+            if p.startswith("core::ops::arith::"):
+                tys = [strip_ref(a) for a in args[:2]]
+                if not any(x in INT_TYS for x in tys):
+                    continue
+                sig = "call:%s<%s>" % (nm, ",".join(tys))
+            elif nm in ("sum", "product"):
+                ty = strip_ref(args[1]) if len(args) > 1 else "?"
+                if ty not in INT_TYS:
+                    continue
+                sig = "call:%s<%s>" % (nm, ty)
+            elif nm in ("index", "index_mut"):
+                idx = args[1] if len(args) > 1 else "?"
+                if "RangeFull" in idx:
+                    continue
+                # workspace Index impls are ordinary workspace functions: the call edge carries their sites
+                if c.get("resolved_local") or (c.get("resolved") or "").startswith(("sfs_core::", "sfs::", "<sfs_core::", "<sfs::")):
+                    continue
+                sig = "call:%s<%s>[%s]" % (nm, _brief(st), _brief(idx))
+            else:
+                sig = "call:%s<%s>" % (nm, _brief(st))
+            out.append(Site(f, b, "pset", sig, p, t))
+    return out
+
+
+def _brief(t):
+    t = re.sub(r"sfs_core::(\w+::)*", "", t)
+    t = re.sub(r"(core|alloc|std)::(\w+::)*", "", t)
+    return t[:70]
+
+
+# ------------------------------------------------------------------------------------
+# local auto-discharge rules
+# ------------------------------------------------------------------------------------
+def _same_value(f, a, b):
+    """do operands a and b denote the same (unmodified) value?  copy-chain equality of locals, or equal constants"""
+    ca, cb = an.const_of(f, a), an.const_of(f, b)
+    if ca is not None and cb is not None:
+        return ca.get("val") == cb.get("val") and ca.get("val") is not None
+    la, lb = op_local(a), op_local(b)
+    if la is None or lb is None:
+        pa, pb = op_place(a), op_place(b)
+        return pa is not None and pa == pb
+    ra, rb = f.copy_root(la), f.copy_root(lb)
+    if ra == rb:
+        return True
+    # both are single-def copies of the same place (e.g. `_a = (*_1).x; _b = (*_1).x` with no intervening write is NOT assumed)
+    da, db = f.single_def(ra), f.single_def(rb)
+    if da and db and da[0] == db[0] == "assign" and da[3]["k"] == db[3]["k"] == "use":
+        pa, pb = op_place(da[3]["op"]), op_place(db[3]["op"])
+        if pa is not None and pa == pb and pa[0] <= f.argc and not pa[1]:
+            return True
+    return False
+
+
+def guarded_sub(f, b, x, y):
+    """is `x - y` at block b dominated by a branch edge implying x >= y ?"""
+    for sb, st in f.switches():
+        s = an.switch_subject(f, sb)
+        if s["kind"] != "value" or s["root"] is None:
+            continue
+        d = f.single_def(s["root"])
+        if not (d and d[0] == "assign" and d[3]["k"] == "binop" and d[3]["op"] in ("Gt", "Ge", "Lt", "Le")):
+            continue
+        op, l, r = d[3]["op"], d[3]["l"], d[3]["r"]
+        t_true, t_false = st["otherwise"], an.edge_target(st, 0)
+        # conditions under which x >= y is implied
+        implied = []
+        if _same_value(f, l, x) and _same_value(f, r, y):
+            implied = {"Ge": [t_true], "Gt": [t_true], "Lt": [t_false], "Le": []}[op]
+        elif _same_value(f, l, y) and _same_value(f, r, x):
+            implied = {"Le": [t_true], "Lt": [t_true], "Gt": [t_false], "Ge": []}[op]
+        for tgt in implied:
+            if an.dominated_by_edge(f, sb, tgt, b):
+                return f.loc(sb)
+    return None
+
+
+def auto_discharge(f, site):
+    """returns a reason string if the site is discharged by a local rule, else None"""
+    t = site.term
+    if site.kind == "assert":
+        m = site.detail
+        k = m["kind"]
+        if k in ("DivisionByZero", "RemainderByZero"):
+            # cond is Eq(divisor, 0): constant non-zero divisor
+            cl = op_local(t["cond"])
+            d = f.single_def(cl) if cl is not None else None
+            if d and d[0] == "assign" and d[3]["k"] == "binop" and d[3]["op"] == "Eq":
+                c1, c2 = an.const_of(f, d[3]["l"]), an.const_of(f, d[3]["r"])
+                if c1 is not None and c2 is not None and isinstance(c1.get("val"), int) and c1["val"] != 0 and c2.get("val") == 0:
+                    return "constant non-zero divisor %s" % c1["val"]
+        if k == "BoundsCheck":
+            ic, lc = an.const_of(f, m["index"]), an.const_of(f, m["len"])
+            if ic is not None and lc is not None and isinstance(ic.get("val"), int) and isinstance(lc.get("val"), int) and ic["val"] < lc["val"]:
+                return "constant index %d into fixed-size array of length %d" % (ic["val"], lc["val"])
+        if k == "Overflow" and m["op"] == "Sub":
+            g = guarded_sub(f, site.bb, m["l"], m["r"])
+            if g:
+                return "dominated by the comparison at %s which implies lhs >= rhs" % g
+            # ALIGN - rem with rem = x % ALIGN
+            lc = an.const_of(f, m["l"])
+            rl = op_local(m["r"])
+            if lc is not None and isinstance(lc.get("val"), int) and rl is not None:
+                d = f.single_def(f.copy_root(rl))
+                if d and d[0] == "assign" and d[3]["k"] == "binop" and d[3]["op"] == "Rem":
+                    rc = an.const_of(f, d[3]["r"])
+                    if rc is not None and rc.get("val") == lc["val"]:
+                        return "c - (x %% c): remainder is < %d" % lc["val"]
+    if site.kind == "pset":
+        p = site.detail
+        if p in ("core::option::Option::<T>::unwrap", "core::option::Option::<T>::expect", "core::result::Result::<T, E>::unwrap", "core::result::Result::<T, E>::expect"):
+            # NonZero::try_from(const nonzero).unwrap()
+            l = op_local(t["args"][0])
+            d = f.single_def(f.copy_root(l)) if l is not None else None
+            if d and d[0] == "call":
+                cp = d[2]["callee"].get("path") or ""
+                if cp in ("core::convert::TryFrom::try_from", "core::num::nonzero::NonZero::<T>::new") and "NonZero" in t["dest_ty"]:
+                    c = an.const_of(f, d[2]["args"][0])
+                    if c is not None and isinstance(c.get("val"), int) and c["val"] != 0:
+                        return "NonZero from the non-zero constant %d" % c["val"]
+    return None
